@@ -38,6 +38,27 @@ class Prover:
                 self.elemof[E.canon(f[1])] = f[2]
             elif f[0] == "forall":
                 self.foralls.append(f)
+        # `for (i, x) in <iterator over a>.enumerate()`: the index is below the length of the underlying collection (for a
+        # zip, of its first component; a chunks()/windows() iterator yields slices no longer than its size argument)
+        for f in assume:
+            if f[0] != "elemof":
+                continue
+            c = f[2]
+            while isinstance(c, tuple) and c and c[0] in ("iter",):
+                c = c[1]
+            if isinstance(c, tuple) and c and c[0] == "call" and re.search(r"::enumerate$", c[1]) and c[2]:
+                inner = c[2][0]
+                steps = 0
+                while isinstance(inner, tuple) and inner and steps < 6:
+                    steps += 1
+                    if inner[0] == "iter":
+                        inner = inner[1]
+                    elif inner[0] == "call" and re.search(r"::(zip|iter|into_iter|iter_mut|by_ref|copied|cloned)$", inner[1]) and inner[2]:
+                        inner = inner[2][0]
+                    else:
+                        break
+                if isinstance(inner, tuple) and inner and inner[0] in ("p", "l", "call", "proj"):
+                    self.lts.append((E.proj_of(f[1], (".0",)), ("len", inner)))
         for f in assume:
             if f[0] == "range":
                 self.ranges[E.canon(f[1])] = (f[2], f[3])
@@ -402,6 +423,26 @@ class Prover:
                     q0 = E.strip_casts(q)
                     if isinstance(q0, tuple) and q0[0] == "bin" and q0[1] == "Div" and (self.same(q0[3], i) or self.le(i, q0[3])):
                         return "(x / c) * i <= x for i <= c"
+            if op == "Add":
+                # q * i + q == q * (i + 1)
+                for (m, q) in ((a, b), (b, a)):
+                    m0 = E.strip_casts(m)
+                    if isinstance(m0, tuple) and m0 and m0[0] == "ovf":
+                        m0 = E.strip_casts(m0[1])
+                    if isinstance(m0, tuple) and m0 and m0[0] == "bin" and m0[1] == "Mul":
+                        for (x, i) in ((m0[2], m0[3]), (m0[3], m0[2])):
+                            if self.same(x, q):
+                                r = self.prove(("noovf", "Mul", q, ("bin", "Add", i, E.C(1)), ty))
+                                if r:
+                                    return "q*i + q = q*(i+1): " + r
+            if op == "Add" and ty in ("usize", "u64", "i64", "isize"):
+                # 64-bit running sum over the elements of an in-memory collection, each widened from <= 32 bits:
+                # fewer than 2^31 elements (ASSUMPTION, listed in the evidence) keep it below 2^63
+                for (acc, x) in ((a, b), (b, a)):
+                    if isinstance(acc, tuple) and acc and acc[0] in ("partial", "lc"):
+                        ux = self.upper(x)
+                        if ux is not None and ux <= (1 << 32) - 1 and (self.lower(x) or 0) >= 0:
+                            return "64-bit sum of <= 32-bit elements of an in-memory collection (fewer than 2^31 elements)"
             ua, ub = self.upper(a), self.upper(b)
             if mx is not None and op in ("Add", "Mul"):
                 uw = self.upper(("bin", op, a, b))
